@@ -6,7 +6,7 @@ read back as vertical tab; run: both stay characters; every other C0 control, an
 in a run, reads back as its _xHHHH_ escape).  Every string of length <= 3 over a 10-symbol alphabet (incl. CR, so CR LF pairs occur)
 (exhaustive) plus seeded class-biased random strings over XML Char + C0 controls are assigned
 through TextFrame.text, Shape.text, _Cell.text, _Paragraph.text and _Run.text onto bodies prepared
-in six prior states, read back at once, the element tree inspected with the harness's own parser
+in six fixed prior states plus one built from the assigned string itself ('sameread': the string held in one run), read back at once, the element tree inspected with the harness's own parser
 (paragraph count, a:br count, empty runs, a:pPr byte-identical by C14N, untouched siblings), then
 saved and re-opened 1-3 times: the stored text is reconstructed from the saved slide XML with a
 plain zipfile + lxml parser, and python-pptx's reader must return the same string again.  The
@@ -31,7 +31,9 @@ RULE = (
     "strings: every string of length <= 3 over {a, space, \\n, \\v, \\t, \\x07, &, <, U+1F600, \\r} (1111 incl. empty, exhaustive) "
     "plus seeded random strings drawn from 12 classes over XML Char + all C0 controls (1 500 quick / 40 000 thorough); each string "
     "at each of the 5 levels (frame, shape, cell, para, run); prior state of the body: quick = 2 of the 6 states per (level, "
-    "string), rotating so all 6 occur; thorough = all states for the exhaustive strings, 1 rotating state per random string. "
+    "string), rotating so all 6 occur; thorough = all states for the exhaustive strings, 1 rotating state per random string; "
+    "plus state 'sameread' (the body already reads like the assigned string but holds it in a single run) for every exhaustive "
+    "string at the four non-run levels and every second random string. "
     "A case = (level, state, string); non-trivial when the string contains a break, a control character, a markup character or "
     "leading/trailing whitespace; distinct by (level, string)."
 )
@@ -136,6 +138,8 @@ def cases_for(kind, tier, shard, of):
                 out += [(level, st, s, feature_class(s)) for st in sts]
         # a merged cell is not reachable through Shape.text: that combination runs on a shape without txBody instead
         out = list(dict.fromkeys((l, "notxbody" if (l, st) == ("shape", "merged") else st, s, cl) for l, st, s, cl in out))
+        # a body that already READS like the string being assigned but is built differently (the string in one run)
+        out += [(level, "sameread", s, feature_class(s)) for s in exhaustive_strings() for level in LEVELS[:4]]
         return [c for j, c in enumerate(out) if j % of == shard]
     r = env.rng("C04", "random", tier, shard)
     total = 1500 if tier == "quick" else 40000
@@ -145,6 +149,8 @@ def cases_for(kind, tier, shard, of):
         for li, level in enumerate(LEVELS):
             sts = [STATES[(i + li + k * 3) % 6] for k in ((0, 1) if tier == "quick" else (0,))]
             out += [(level, "notxbody" if (level, st) == ("shape", "merged") else st, s, cls) for st in sts]
+        if i % 2 == 0:
+            out.append((LEVELS[(i // 2) % 4], "sameread", s, cls))
     return out
 
 
@@ -230,8 +236,10 @@ PH_XML = (
 )
 
 
-def prepare(slide, level, state):
-    """Add a text container in `state` to `slide`; -> (shape id, 'sp'|'tc')."""
+def prepare(slide, level, state, s=""):
+    """Add a text container in `state` to `slide`; -> (shape id, 'sp'|'tc').  State 'sameread' depends on the string
+    about to be assigned: the body holds that string in ONE run (set through _Run.text), so that it may already read
+    like the assigned value while holding none of the paragraphs and line breaks the assignment must produce."""
     from pptx.oxml import parse_xml
     from pptx.util import Emu
 
@@ -243,7 +251,7 @@ def prepare(slide, level, state):
             cell.text = "old"
             gf.table.cell(1, 1).text = "moved\vin"
             cell.merge(gf.table.cell(1, 1))
-        holder, sid = cell._tc, gf.shape_id
+        holder, sid, owner = cell._tc, gf.shape_id, cell
     elif state == "notxbody":
         spTree = slide.shapes._spTree
         sid = 1 + max(int(x) for x in etree.XPath("//p:cNvPr/@id", namespaces={"p": P})(spTree))
@@ -251,7 +259,7 @@ def prepare(slide, level, state):
         spTree.append(holder)
     else:
         sp = slide.shapes.add_textbox(Emu(0), Emu(0), Emu(2000000), Emu(800000))
-        holder, sid = sp._element, sp.shape_id
+        holder, sid, owner = sp._element, sp.shape_id, sp
     body = holder.find("{%s}txBody" % (A if use_cell else P))
     if state == "notxbody":
         if body is not None:
@@ -261,6 +269,8 @@ def prepare(slide, level, state):
             body.remove(p)
         for x in STATE_XML[state]:
             body.append(parse_xml(x % NSDECL))
+    elif state == "sameread":
+        owner.text_frame.paragraphs[0].add_run().text = s
     return sid, ("tc" if use_cell else "sp")
 
 
@@ -340,7 +350,7 @@ def run_batch(cases, cycles, acc, attributed, say=None):
     slides = [prs.slides.add_slide(prs.slide_layouts[6]) for _ in range(2)]
     for k, c in enumerate(cases):
         c.si, c.cycles = k % 2, cycles
-        c.sid, c.kind = prepare(slides[c.si], c.level, c.state)
+        c.sid, c.kind = prepare(slides[c.si], c.level, c.state, c.s)
 
     def vio(c, key, what):
         acc.violation(key, "%s: %s" % (c.show(), what), c.witness())
